@@ -8,6 +8,11 @@ from .sig import PType
 ROWS = {}
 
 
+def arch_align(aid):
+    """A::alignment() in bytes: the register width, 8 for emulated<N> (xsimd_emulated_register.hpp)"""
+    return 8 if aid.startswith("emu") else ARCHS[aid][1] // 8
+
+
 class Row:
     def __init__(self, op, kinds, ret, build, types, mode, prop, inline_ops=()):
         self.op, self.kinds, self.ret, self.build, self.types, self.mode, self.prop = op, kinds, ret, build, types, mode, prop
@@ -251,6 +256,51 @@ def _s_select(ctx):
     ctx.ensures.append("(%s == ((%s != 0) ? %s : %s))" % (R.lane(0), c.scalar, a.lane(0), b.lane(0)))
 
 
+# ---- floating scalar overloads (C17): the same specification functions as the lanes of the batch kernels (C02 / C08) --------------------------
+for _op in ("add", "sub"):
+    row(_op, "SS", "S", types=FLOAT_TYPES, mode="ufadd", prop="C17")(scalarwise(_op))
+for _op in ("mul", "div"):
+    row(_op, "SS", "S", types=FLOAT_TYPES, mode="uf", prop="C17")(scalarwise(_op))
+for _op in ("neg", "abs"):
+    row(_op, "S", "S", types=FLOAT_TYPES, prop="C17")(scalarwise(_op))
+for _op in ("is_flint", "is_even", "is_odd"):
+    row(_op, "S", "b", types=FLOAT_TYPES, prop="C17")(scalarwise(_op, ret="b"))
+
+
+def _s_minmax(okspec):
+    def build(ctx):
+        a = [x.lane(0) for x in ctx.args]
+        R = ctx.ret = Arg("S", ctx.tid, None, scalar="__CPROVER_return_value")
+        ctx.requires.append(" && ".join("!%s" % ctx.spec("isnan", x) for x in a))
+        ctx.ensures.append(ctx.spec(okspec, R.lane(0), *a))
+    return build
+
+
+row("min", "SS", "S", types=FLOAT_TYPES, prop="C17")(_s_minmax("minok"))
+row("max", "SS", "S", types=FLOAT_TYPES, prop="C17")(_s_minmax("maxok"))
+
+
+def _s_float_fma(kind):
+    def build(ctx):
+        a, b, c = [x.lane(0) for x in ctx.args]
+        R = ctx.ret = Arg("S", ctx.tid, None, scalar="__CPROVER_return_value")
+        ctx.ensures.append("(" + " || ".join(ctx.eq(R.lane(0), x) for x in _fma_cands(ctx, kind, a, b, c)) + ")")
+    return build
+
+
+for _op in ("fma", "fms", "fnma", "fnms"):
+    row(_op, "SSS", "S", types=FLOAT_TYPES, mode="ufadd", prop="C17")(_s_float_fma(_op))
+
+
+@row("nearbyint_as_int", "S", "S", types=FLOAT_TYPES, prop="C17")
+def _s_nbi(ctx):
+    dst = {"f32": "i32", "f64": "i64"}[ctx.tid]
+    a = ctx.args[0].lane(0)
+    r = ctx.spec("nearbyint", a)
+    ctx.ret = Arg("S", dst, None, scalar="__CPROVER_return_value")
+    ctx.ensures.append("(!(%s) || (u%d)__CPROVER_return_value == %s)" % (conv_pre(ctx.tid, dst, r), TYPES[dst][2], conv_expr(ctx.tid, dst, r)))
+
+
 # ---- clip: scalar overload and batch kernel against one specification (C17) ----------------------------------------------------------
 def _clip_expect(ctx, x, lo, hi):
     return "(%s ? %s : (%s ? %s : %s))" % (ctx.spec("lt", x, lo), lo, ctx.spec("lt", hi, x), hi, x)
@@ -324,37 +374,57 @@ row("sign", "B", "B", types=FLOAT_TYPES, prop="C02")(_relational("signok"))
 row("signnz", "B", "B", types=FLOAT_TYPES, prop="C02")(_relational("signnzok", pre_nonzero=True))
 
 
+def _fma_cands(ctx, kind, a, b, c):
+    """bit patterns the fused / unfused evaluation of one fma-family operation may return (any operand-sign placement of the
+    mathematically equal forms clang emits); a, b, c are bit-pattern expressions"""
+    T, W = ctx.T, ctx.w
+    F = lambda x: "U2F%d(%s)" % (W, x)
+    U = lambda x: "F2U%d(%s)" % (W, x)
+    na, nb, nc = ctx.spec("neg", a), ctx.spec("neg", b), ctx.spec("neg", c)
+    mul = lambda x, y: "FMUL_%s(%s, %s)" % (T, F(x), F(y))
+    fma = lambda x, y, z: U("LL_FMA_%s(%s, %s, %s)" % (T, F(x), F(y), F(z)))
+    add = lambda x, y: U("FADD_%s(%s, %s)" % (T, x, y))
+    sub = lambda x, y: U("FSUB_%s(%s, %s)" % (T, x, y))
+    if kind == "fma":      # a*b + c
+        return [fma(a, b, c), add(mul(a, b), F(c))]
+    if kind == "fms":      # a*b - c
+        return [fma(a, b, nc), sub(mul(a, b), F(c)), add(mul(a, b), F(nc))]
+    if kind == "fnma":     # -(a*b) + c
+        return [fma(na, b, c), fma(a, nb, c), add(mul(na, b), F(c)), sub(F(c), mul(a, b))]
+    return [fma(na, b, nc), fma(a, nb, nc), sub(mul(na, b), F(c))]   # fnms: -(a*b) - c
+
+
 def _float_fma(kind):
     """result is the fused or the unfused evaluation (any operand-sign placement of the mathematically equal forms)"""
     def build(ctx):
         R = ctx.ret = bind_ret(ctx, "B")
-        T, W = ctx.T, ctx.w
         ens = []
         for i in range(ctx.n):
             a, b, c = [x.lane(i) for x in ctx.args]
-            F = lambda x: "U2F%d(%s)" % (W, x)
-            U = lambda x: "F2U%d(%s)" % (W, x)
-            na, nb, nc = ctx.spec("neg", a), ctx.spec("neg", b), ctx.spec("neg", c)
-            mul = lambda x, y: "FMUL_%s(%s, %s)" % (T, F(x), F(y))
-            fma = lambda x, y, z: U("LL_FMA_%s(%s, %s, %s)" % (T, F(x), F(y), F(z)))
-            add = lambda x, y: U("FADD_%s(%s, %s)" % (T, x, y))
-            sub = lambda x, y: U("FSUB_%s(%s, %s)" % (T, x, y))
-            neg = lambda x: "(-%s)" % x
-            if kind == "fma":      # a*b + c
-                cands = [fma(a, b, c), add(mul(a, b), F(c))]
-            elif kind == "fms":    # a*b - c
-                cands = [fma(a, b, nc), sub(mul(a, b), F(c)), add(mul(a, b), F(nc))]
-            elif kind == "fnma":   # -(a*b) + c
-                cands = [fma(na, b, c), fma(a, nb, c), add(mul(na, b), F(c)), sub(F(c), mul(a, b))]
-            else:                  # fnms: -(a*b) - c
-                cands = [fma(na, b, nc), fma(a, nb, nc), sub(mul(na, b), F(c))]
-            ens.append("(" + " || ".join(ctx.eq(R.lane(i), x) for x in cands) + ")")
+            ens.append("(" + " || ".join(ctx.eq(R.lane(i), x) for x in _fma_cands(ctx, kind, a, b, c)) + ")")
         ctx.ensures += conj(ens, 2)
     return build
 
 
 for _op in ("fma", "fms", "fnma", "fnms"):
     row(_op, "BBB", "B", types=FLOAT_TYPES, mode="ufadd", prop="C02")(_float_fma(_op))
+
+
+@row("ldexp", "BB", "B", types=FLOAT_TYPES, mode="uf", prop="C02")
+def _ldexp(ctx):
+    """x * 2^e rounded once (IEEE multiplication by the exactly representable power of two), for exponents whose power of two is a normal
+    number; outside that range the generic kernel's exponent-field arithmetic does not denote a power of two (see DESIGN 7)"""
+    x, e = ctx.args
+    R = ctx.ret = bind_ret(ctx, "B")
+    W = ctx.w
+    bias, nmb, S = (127, 23, "s32") if W == 32 else (1023, 52, "s64")
+    ens = []
+    for i in range(ctx.n):
+        ei = "(%s)%s" % (S, e.lane(i))
+        ctx.requires.append("(%s >= %d && %s <= %d)" % ("(%s)%s" % (S, e.lane_pre(i)), 1 - bias, "(%s)%s" % (S, e.lane_pre(i)), bias))
+        p2 = "((u%d)((u%d)(%s + %d) << %d))" % (W, W, ei, bias, nmb)
+        ens.append(ctx.eq(R.lane(i), ctx.spec("mul", x.lane(i), p2)))
+    ctx.ensures += conj(ens, 2)
 
 
 # ---- C08: rounding -------------------------------------------------------------------------------------------------------
@@ -468,7 +538,7 @@ def _bool_load(aligned):
         ctx.requires.append("__CPROVER_r_ok(%s, %d)" % (mem.scalar, ctx.n))
         ctx.requires += conj(["%s[%d] <= 1" % (mem.scalar, i) for i in range(ctx.n)])      # object representation of bool
         if aligned:
-            ctx.requires.append("((u64)%s %% %d) == 0" % (mem.scalar, ARCHS[ctx.aid][1] // 8))
+            ctx.requires.append("(LL_ADDR(%s) %% %d) == 0" % (mem.scalar, arch_align(ctx.aid)))
         ctx.ensures += conj([R.is_true_iff(i, "%s[%d] != 0" % (mem.scalar, i)) for i in range(ctx.n)])
         ctx.ensures += conj(R.wf())
     return build
@@ -504,7 +574,7 @@ def _cplx_load(aligned):
         ctx.mem_bytes = {mem.cname: nbytes}
         ctx.requires.append("__CPROVER_r_ok(%s, %d)" % (mem.scalar, nbytes))
         if aligned:
-            ctx.requires.append("((u64)%s %% %d) == 0" % (mem.scalar, ARCHS[ctx.aid][1] // 8))
+            ctx.requires.append("(LL_ADDR(%s) %% %d) == 0" % (mem.scalar, arch_align(ctx.aid)))
         ens = []
         for i in range(ctx.n):
             ens.append("(%s == %s)" % (R.re(i), _cplx_elem(mem, ctx.w, 2 * i)))
@@ -525,7 +595,7 @@ def _cplx_store(aligned):
         ctx.mem_bytes = {mem.cname: nbytes}
         ctx.requires.append("__CPROVER_w_ok(%s, %d)" % (mem.scalar, nbytes))
         if aligned:
-            ctx.requires.append("((u64)%s %% %d) == 0" % (mem.scalar, ARCHS[ctx.aid][1] // 8))
+            ctx.requires.append("(LL_ADDR(%s) %% %d) == 0" % (mem.scalar, arch_align(ctx.aid)))
         ens = []
         for i in range(ctx.n):
             ens.append("(%s == %s)" % (_cplx_elem(mem, ctx.w, 2 * i), z.re(i)))
@@ -559,7 +629,7 @@ def _load(aligned):
         ctx.mem_bytes = {mem.cname: nbytes}
         ctx.requires.append("__CPROVER_r_ok(%s, %d)" % (mem.scalar, nbytes))
         if aligned:
-            ctx.requires.append("((u64)%s %% %d) == 0" % (mem.scalar, ARCHS[ctx.aid][1] // 8))
+            ctx.requires.append("(LL_ADDR(%s) %% %d) == 0" % (mem.scalar, arch_align(ctx.aid)))
         ctx.ensures += conj(["(%s == %s)" % (R.lane(i), mem.elem(i)) for i in range(ctx.n)])
     return build
 
@@ -573,7 +643,7 @@ def _conv_load(aligned, mem):
         ctx.mem_bytes = {mem.cname: nbytes}
         ctx.requires.append("__CPROVER_r_ok(%s, %d)" % (mem.scalar, nbytes))
         if aligned:
-            ctx.requires.append("((u64)%s %% %d) == 0" % (mem.scalar, ARCHS[ctx.aid][1] // 8))
+            ctx.requires.append("(LL_ADDR(%s) %% %d) == 0" % (mem.scalar, arch_align(ctx.aid)))
         ens = []
         for i in range(ctx.n):
             x = mem.elem(i)
@@ -592,7 +662,7 @@ def _conv_store(aligned, mem, b):
         ctx.mem_bytes = {mem.cname: nbytes}
         ctx.requires.append("__CPROVER_w_ok(%s, %d)" % (mem.scalar, nbytes))
         if aligned:
-            ctx.requires.append("((u64)%s %% %d) == 0" % (mem.scalar, ARCHS[ctx.aid][1] // 8))
+            ctx.requires.append("(LL_ADDR(%s) %% %d) == 0" % (mem.scalar, arch_align(ctx.aid)))
         ens = []
         for i in range(ctx.n):
             x = b.lane(i)
@@ -616,7 +686,7 @@ def _store(aligned):
         ctx.mem_bytes = {mem.cname: nbytes}
         ctx.requires.append("__CPROVER_w_ok(%s, %d)" % (mem.scalar, nbytes))
         if aligned:
-            ctx.requires.append("((u64)%s %% %d) == 0" % (mem.scalar, ARCHS[ctx.aid][1] // 8))
+            ctx.requires.append("(LL_ADDR(%s) %% %d) == 0" % (mem.scalar, arch_align(ctx.aid)))
         ctx.ensures += conj(["(%s == %s)" % (mem.elem(i), b.lane(i)) for i in range(ctx.n)])
         # frame: exactly size*sizeof(T) bytes starting at the pointer
         ctx.assigns.append("__CPROVER_object_upto(%s, %d)" % (mem.scalar, nbytes))
@@ -1068,6 +1138,65 @@ row("add", "CC", "C", types=FLOAT_TYPES, mode="ufadd", prop="C16")(_cplx_lanewis
 row("sub", "CC", "C", types=FLOAT_TYPES, mode="ufadd", prop="C16")(_cplx_lanewise("sub", "sub"))
 row("neg", "C", "C", types=FLOAT_TYPES, prop="C16")(_cplx_lanewise("neg", "neg"))
 row("conj", "C", "C", types=FLOAT_TYPES, prop="C16")(_cplx_lanewise(None, "neg"))
+
+
+def _any_of(ctx, r, cands):
+    return "(" + " || ".join(ctx.eq(r, x) for x in cands) + ")"
+
+
+@row("mul", "CC", "C", types=FLOAT_TYPES, mode="ufadd", prop="C16")
+def _cplx_mul(ctx):
+    """textbook product, evaluated in floating point: re = a.re*b.re - a.im*b.im, im = a.re*b.im + a.im*b.re, the inner product
+    rounded once, the outer product-and-sum fused or not (the latitude C02 gives the fma family)"""
+    R = ctx.ret = bind_ret(ctx, "C")
+    a, b = ctx.args
+    ens = []
+    for i in range(ctx.n):
+        t_re = ctx.spec("mul", a.im(i), b.im(i))
+        t_im = ctx.spec("mul", a.im(i), b.re(i))
+        ens.append(_any_of(ctx, R.re(i), _fma_cands(ctx, "fms", a.re(i), b.re(i), t_re)))
+        ens.append(_any_of(ctx, R.im(i), _fma_cands(ctx, "fma", a.re(i), b.im(i), t_im)))
+    ctx.ensures += conj(ens, 2)
+
+
+@row("div", "CC", "C", types=FLOAT_TYPES, mode="ufadd", prop="C16")
+def _cplx_div(ctx):
+    """textbook quotient (a + ib)/(c + id) = ((ac + bd) + i(bc - ad)) / (cc + dd), every operation rounded once"""
+    R = ctx.ret = bind_ret(ctx, "C")
+    x, y = ctx.args
+    ens = []
+    S = ctx.spec
+    for i in range(ctx.n):
+        a, b, c, d = x.re(i), x.im(i), y.re(i), y.im(i)
+        e = S("add", S("mul", c, c), S("mul", d, d))
+        ens.append(ctx.eq(R.re(i), S("div", S("add", S("mul", c, a), S("mul", d, b)), e)))
+        ens.append(ctx.eq(R.im(i), S("div", S("sub", S("mul", c, b), S("mul", d, a)), e)))
+    ctx.ensures += conj(ens, 2)
+
+
+def _cplx_fma(outer_neg, in_re, in_im):
+    """complex fused forms: re = [-] fms(x.re, y.re, IN_RE(x.im, y.im, z.re)), im = [-] fma(x.re, y.im, IN_IM(x.im, y.re, z.im)),
+    every real fma-family operation fused or not"""
+    def build(ctx):
+        R = ctx.ret = bind_ret(ctx, "C")
+        x, y, z = ctx.args
+        ens = []
+        for i in range(ctx.n):
+            re_c = [o for t in _fma_cands(ctx, in_re, x.im(i), y.im(i), z.re(i)) for o in _fma_cands(ctx, "fms", x.re(i), y.re(i), t)]
+            im_c = [o for t in _fma_cands(ctx, in_im, x.im(i), y.re(i), z.im(i)) for o in _fma_cands(ctx, "fma", x.re(i), y.im(i), t)]
+            if outer_neg:
+                re_c = [ctx.spec("neg", o) for o in re_c]
+                im_c = [ctx.spec("neg", o) for o in im_c]
+            ens.append(_any_of(ctx, R.re(i), re_c))
+            ens.append(_any_of(ctx, R.im(i), im_c))
+        ctx.ensures += conj(ens, 2)
+    return build
+
+
+row("fma", "CCC", "C", types=FLOAT_TYPES, mode="ufadd", prop="C16")(_cplx_fma(False, "fms", "fma"))
+row("fms", "CCC", "C", types=FLOAT_TYPES, mode="ufadd", prop="C16")(_cplx_fma(False, "fma", "fms"))
+row("fnma", "CCC", "C", types=FLOAT_TYPES, mode="ufadd", prop="C16")(_cplx_fma(True, "fma", "fms"))
+row("fnms", "CCC", "C", types=FLOAT_TYPES, mode="ufadd", prop="C16")(_cplx_fma(True, "fms", "fma"))
 
 
 def _cplx_part(which):
